@@ -30,7 +30,9 @@ Fixpoint dec_stmt (s : sexp) : list stmt :=
       match tag with
       | 0%Z => [SNewSig]
       | 1%Z => [SNewStored]
-      | 2%Z => [SOnCleanup]        (* (2) on_cleanup, (2 1) Owner::on_cleanup *)
+      | 2%Z => [SOnCleanup]        (* (2) on_cleanup, (2 1) Owner::on_cleanup; (2 mode body): a cleanup function
+                                      that itself registers / allocates / reads - NOT modelled, such cases are
+                                      not compared *)
       | 3%Z => [SProvide (as_nat (nth 0 args (Lst []))) (as_Z (nth 1 args (Lst [])))]
       | 4%Z => [SUse (as_nat (nth 0 args (Lst [])))]   (* (4 ty [mode]): use_context / with_context / expect_context *)
       | 5%Z => [SChild body]       (* (5 body [mode]): Owner::new + with / current().child() + with / new + set *)
@@ -68,6 +70,8 @@ Definition dec_op (e : sexp) : option op :=
   match as_Z (nth_s 0 e) with
   | 10%Z => Some (Rerun a)
   | 11%Z => Some (Cleanup a)
+  | 30%Z => Some (Cleanup a)      (* o.with(|| o.cleanup()): the same cleanup; who is current only matters to
+                                     cleanup functions that register things, which the model does not have *)
   | 12%Z => Some (DropOwner a)
   | 13%Z => Some (NotifyEffect a)
   | 14%Z => Some (NotifyMemo a)
